@@ -200,24 +200,45 @@ class Program:
             raise AnalysisError(f"only {self.n_calls} call sites found (floor {FLOOR_CALLS})")
 
     def _index_module(self, m: ModuleInfo):
-        for node in m.tree.body:
+        def statements(body):
+            """module-level statements, looking into try / if blocks (compatibility imports, TYPE_CHECKING): the first
+            binding of a name wins, so `try: from a import f / except ImportError: from b import g as f` binds a.f"""
+            for node in body:
+                if isinstance(node, ast.Try):
+                    yield from statements(node.body)
+                    for h in node.handlers:
+                        for x in statements(h.body):
+                            x._bb_fallback = True  # binds only what the try body did not bind
+                            yield x
+                    yield from statements(node.orelse)
+                    yield from statements(node.finalbody)
+                elif isinstance(node, ast.If):
+                    yield from statements(node.body)
+                    yield from statements(node.orelse)
+                else:
+                    yield node
+
+        for node in statements(m.tree.body):
             if isinstance(node, ast.Import):
                 for a in node.names:
                     local = a.asname or a.name.split(".")[0]
-                    m.imports[local] = a.name if a.asname else a.name.split(".")[0]
+                    m.imports.setdefault(local, a.name if a.asname else a.name.split(".")[0])
             elif isinstance(node, ast.ImportFrom):
                 base = node.module or ""
                 if node.level:
                     parts = m.name.split(".")
                     base = ".".join(parts[: len(parts) - node.level + (1 if m.path.endswith("__init__.py") else 0)] + ([base] if base else []))
                 for a in node.names:
-                    m.imports[a.asname or a.name] = f"{base}.{a.name}"
+                    m.imports.setdefault(a.asname or a.name, f"{base}.{a.name}")
             elif isinstance(node, (ast.FunctionDef, ast.AsyncFunctionDef)):
                 self._index_function(node, m, None, None, m.name)
             elif isinstance(node, ast.ClassDef):
                 self._index_class(node, m, None, m.name)
             elif isinstance(node, ast.Assign) and len(node.targets) == 1 and isinstance(node.targets[0], ast.Name):
-                m.constants[node.targets[0].id] = node.value
+                if getattr(node, "_bb_fallback", False):
+                    m.constants.setdefault(node.targets[0].id, node.value)
+                else:
+                    m.constants[node.targets[0].id] = node.value
             elif isinstance(node, ast.AnnAssign) and isinstance(node.target, ast.Name) and node.value is not None:
                 m.constants[node.target.id] = node.value
 
